@@ -568,3 +568,50 @@ m("c14-wal-read-error-swallowed", "C14", "nomt/src/bitbox/wal/read.rs",
   "                Err(e) => return Err(e.into()),\n            };\n            pn += 1;",
   "                Err(_) => break,\n            };\n            pn += 1;",
   "R1|bitbox::wal::read::WalBlobReader::new")
+
+# ---- C19 U1-U3 reclaim / occupancy ----
+m("c19-tombstone-not-counted", "C19", "nomt/src/bitbox/mod.rs",
+  "            if dirty_page.diff.cleared() {\n                occupied_buckets_delta -= 1;\n",
+  "            if dirty_page.diff.cleared() {\n",
+  "U1|bitbox::DB::prepare_sync|set_tombstone")
+m("c19-count-every-written-page", "C19", "nomt/src/bitbox/mod.rs",
+  "                if meta_map_changed {\n                    occupied_buckets_delta += 1;\n                    meta_map.set_full(bucket as usize, hash);",
+  "                occupied_buckets_delta += 1;\n                if meta_map_changed {\n                    meta_map.set_full(bucket as usize, hash);",
+  "U1|bitbox::DB::prepare_sync|step-has-set_full")
+m("c19-occupancy-counted-before-recovery", "C19", "nomt/src/bitbox/mod.rs",
+  "        if wal_fd.metadata()?.len() > 0 {\n            recover(",
+  "        let occupied_buckets = meta_map.full_count();\n        if wal_fd.metadata()?.len() > 0 {\n            recover(",
+  "U1|bitbox::DB::open|count-after-recover",
+  also=[("nomt/src/bitbox/mod.rs", "        let occupied_buckets = meta_map.full_count();\n\n        let wal_blob_builder", "        let wal_blob_builder")])
+m("c19-freed-pages-to-wrong-store", "C19", "nomt/src/beatree/ops/update/mod.rs",
+  "        leaf_finisher.finish(&page_pool, leaf_stage_outputs.freed_pages)?;\n\n    let (bbn_freelist_pages, bbn_meta) =\n        bbn_finisher.finish(&page_pool, branch_stage_outputs.freed_pages)?;",
+  "        leaf_finisher.finish(&page_pool, branch_stage_outputs.freed_pages)?;\n\n    let (bbn_freelist_pages, bbn_meta) =\n        bbn_finisher.finish(&page_pool, leaf_stage_outputs.freed_pages)?;",
+  "U2|beatree::ops::update::update|same-store")
+m("c19-finish-forgets-freed", "C19", "nomt/src/beatree/allocator/mod.rs",
+  "        let freelist_pages = sync.free_list.commit(page_pool, freed, &mut next_bump);",
+  "        drop(freed);\n        let freelist_pages = sync.free_list.commit(page_pool, Vec::new(), &mut next_bump);",
+  "U2|beatree::allocator::SyncFinisher::finish|commit(freed)")
+m("c19-branch-stage-leaks-deleted", "C19", "nomt/src/beatree/ops/update/branch_stage.rs",
+  "        if let Some(deleted_pn) = changed_branch.deleted {\n            output.freed_pages.push(deleted_pn);\n        }",
+  "        let _ = changed_branch.deleted;",
+  "U2|beatree::ops::update::branch_stage|collects-deleted")
+m("c19-leaf-stage-drops-extra-freed", "C19", "nomt/src/beatree/ops/update/leaf_stage.rs",
+  "    output\n        .freed_pages\n        .extend(worker_output.leaves_tracker.extra_freed.drain(..));",
+  "    worker_output.leaves_tracker.extra_freed.clear();",
+  "U2|beatree::ops::update::leaf_stage|collects-extra_freed")
+m("c19-counter-reset-elsewhere", "C19", "nomt/src/bitbox/mod.rs",
+  "    pub fn utilization(&self) -> HashTableUtilization {",
+  "    #[allow(dead_code)]\n    pub fn reset_utilization(&self) {\n        self.shared.occupied_buckets.store(0, Ordering::Relaxed);\n    }\n\n    pub fn utilization(&self) -> HashTableUtilization {",
+  "U1|bitbox::DB::reset_utilization|counter-writer|store")
+m("benign-delta-applied-with-match", "C19", "nomt/src/bitbox/mod.rs",
+  "        if occupied_buckets_delta < 0 {\n            self.shared\n                .occupied_buckets\n                .fetch_sub(occupied_buckets_delta.abs() as usize, Ordering::Relaxed);\n        } else if occupied_buckets_delta > 0 {\n            self.shared\n                .occupied_buckets\n                .fetch_add(occupied_buckets_delta as usize, Ordering::Relaxed);\n        }",
+  "        let counter = &self.shared.occupied_buckets;\n        match occupied_buckets_delta.signum() {\n            -1 => {\n                counter.fetch_sub(occupied_buckets_delta.unsigned_abs(), Ordering::Relaxed);\n            }\n            1 => {\n                counter.fetch_add(occupied_buckets_delta as usize, Ordering::Relaxed);\n            }\n            _ => {}\n        }",
+  None)
+m("benign-freed-pages-via-local", "C19", "nomt/src/beatree/ops/update/mod.rs",
+  "        leaf_finisher.finish(&page_pool, leaf_stage_outputs.freed_pages)?;",
+  "        {\n            let leaf_freed = leaf_stage_outputs.freed_pages;\n            leaf_finisher.finish(&page_pool, leaf_freed)?\n        };",
+  None)
+m("c19-allocate-ignores-free-list", "C19", "nomt/src/beatree/allocator/mod.rs",
+  "        if allocation_index >= free_list.len() {\n            let pn = PageNumber(sync.bump.0 + (allocation_index - free_list.len()) as u32);",
+  "        let _ = &free_list;\n        if true {\n            let pn = PageNumber(sync.bump.0 + allocation_index as u32);",
+  "U3|beatree::allocator::SyncAllocator::allocate|free-list-first")
